@@ -278,6 +278,7 @@ pub struct SpyState {
     pub fault: Fault,
     pub faults_injected: u64,
     pub vt_compares: u64,
+    pub vt_panics: u64,
     pub vt_mismatch: Option<String>,
     pub log: Option<Vec<String>>,
     pub frames: Option<Vec<(u64, Vec<String>)>>,
@@ -296,7 +297,7 @@ impl Spy {
     pub fn new(w: usize, h: usize, with_vt: bool) -> Spy {
         Spy(Arc::new(Mutex::new(SpyState {
             model: TermModel::new(w, h),
-            vt: if with_vt {
+            vt: if with_vt && w >= 2 && h >= 2 {
                 Some(vt100::Parser::new(h as u16, w as u16, 0))
             } else {
                 None
@@ -309,6 +310,7 @@ impl Spy {
             fault: Fault::None,
             faults_injected: 0,
             vt_compares: 0,
+            vt_panics: 0,
             vt_mismatch: None,
             log: None,
             frames: None,
@@ -380,7 +382,12 @@ impl SpyState {
         }
         self.model.write(s);
         if let Some(vt) = self.vt.as_mut() {
-            vt.process(s.as_bytes());
+            // the vt100 crate has arithmetic slips on degenerate sizes; losing the cross-check
+            // is a (counted) loss of assurance, never a verdict
+            if crate::util::catch(|| vt.process(s.as_bytes())).is_err() {
+                self.vt = None;
+                self.vt_panics += 1;
+            }
         }
     }
 
